@@ -961,8 +961,12 @@ class Interp:
             els = body[-1][1:]
             body = body[:-1]
 
-        class _OuterBreak(BaseException):
-            pass
+        # "for compiles to one or more for statements": break/continue apply to the
+        # innermost iteration clause before them; else belongs to the outermost loop
+        # and is skipped only when *that* loop is jumped out of.
+        iters = [j for j, c in enumerate(cl) if c[0] == "iter"]
+        outer = iters[0] if iters else None
+        broke_outer = [False]
 
         def rec(i):
             if i == len(cl):
@@ -984,14 +988,18 @@ class Interp:
                     try:
                         rec(i + 1)
                     except _Continue:
-                        # `continue` continues the innermost iteration clause
                         continue
+                    except _Break:
+                        if i == outer:
+                            broke_outer[0] = True
+                        break
 
-        try:
+        if outer is None:
+            # no iteration clause at all: break/continue have no loop to apply to
             rec(0)
-        except _Break:
-            return None
-        if els is not None:
+        else:
+            rec(0)
+        if els is not None and not broke_outer[0]:
             self.body(els, fr)
         return None
 
@@ -1032,7 +1040,12 @@ class Interp:
                 # the first iterable is evaluated in the enclosing scope
                 for v in (first[0] if (i == 0 and not lazy_first) else self.ev(c[2], cf if i else fr)):
                     self.bind(c[1], v, cf)
-                    yield from rec(i + 1)
+                    try:
+                        yield from rec(i + 1)
+                    except _Continue:
+                        continue
+                    except _Break:
+                        break
 
         return rec(0)
 
@@ -1079,21 +1092,34 @@ class Interp:
         # "with returns the value of its last form, unless it suppresses an exception
         # ..., in which case it returns None": the value is the body's value when the
         # body ran to completion, None when an exception cut it short and a manager
-        # suppressed it.  (An exception raised by an inner __exit__ *after* the body
-        # completed, and suppressed by an outer manager, leaves the body's value.)
+        # suppressed it.  One case is left open by that sentence: the body completes,
+        # an inner manager's __exit__ then raises, and an outer manager suppresses
+        # *that* exception.  Both None ("it suppressed an exception") and the body's
+        # value ("the value of its last form") are accepted there (envobj.Either).
+        from vf.envobj import Either
+
         res = [None]
+        st = {"done": False, "exit_exc": False}
 
         def rec(i):
             if i == len(pairs):
                 res[0] = self.body(body, fr)
+                st["done"] = True
                 return
             var, mf = pairs[i]
-            with self.ev(mf, fr) as got:
-                if var != "_":
-                    self.bind(var, got, fr)
-                rec(i + 1)
+            try:
+                with self.ev(mf, fr) as got:
+                    if var != "_":
+                        self.bind(var, got, fr)
+                    rec(i + 1)
+            except Exception:
+                if st["done"]:
+                    st["exit_exc"] = True
+                raise
 
         rec(0)
+        if st["exit_exc"] and res[0] is not None:
+            return Either(None, res[0])
         return res[0]
 
     def f_try(self, x, fr):
@@ -1171,6 +1197,28 @@ class Interp:
             else:
                 raise RefError("bad . form")
         return o
+
+    def f_defclass(self, x, fr):
+        """(defclass Name [bases...] body...): the body runs in a class scope that
+        nested functions do not see; the class is bound in the enclosing Python scope."""
+        name = x[1]
+        bases = tuple(self.par(x[2][1:], fr)) if len(x) > 2 else ()
+        body = x[3:]
+        doc = None
+        if body and is_form(body[0], "str"):
+            doc = body[0][1]
+            body = body[1:]
+        acc, gl, nl = assigned_names(body)
+        cf = Frame("class", fr, acc - gl - nl, gl, nl)
+        self.body(body, cf)
+        ns = {}
+        for k in cf.vars:
+            ns[k] = cf.vars[k]
+        if doc is not None:
+            ns["__doc__"] = doc
+        cls = type(name, bases, ns)
+        assign(name, cls, fr)
+        return None
 
     def f_assert(self, x, fr):
         if not self.ev(x[1], fr):
